@@ -504,7 +504,7 @@ class TypeGen:
 
         def g(r, ordered=ordered):
             return r.choice(ordered).gen(r)
-        key_classes = [type(None) if arg.origin is None else arg.origin for arg in norm.args]
+        key_classes = [type(None) if arg.origin is None else object if arg.origin is Any else arg.origin for arg in norm.args]
         keys = [class_key(k) for k in key_classes]
         sp = Spec(hint=hint, ty=["union", [c.ty for c in ordered], keys], gen=g, kind="union", children=ordered,
                   hashable=all(c.hashable for c in ordered), json_safe=all(c.json_safe for c in ordered),
